@@ -7,7 +7,7 @@ open Finset
 namespace Lentil
 
 noncomputable instance instBlurLikeReal : BlurLike ℝ :=
-  ⟨fun x => Real.sinc (Real.pi * x), Real.exp, Real.sin, Real.cos, Real.pi⟩
+  ⟨fun x => Real.sinc (Real.pi * x), Real.exp, Real.sin, Real.cos, Real.pi, fun x => decide (x = 0)⟩
 noncomputable instance instAbsLikeComplex : AbsLike ℂ ℝ := ⟨fun z => ‖z‖⟩
 
 /-! ## materialising an array does not change it -/
@@ -50,14 +50,33 @@ theorem blurCore_def (img k : Arr ℝ) :
 /-- the three blurs as the source composes them (`Gen.bw…Renorm` regenerated from the `return` statements) -/
 theorem pixel_def (img : Arr ℝ) (os : ℝ) : pixel ℂ img os = blurCore ℂ img (pixelKernel img.s0 img.s1 os) := by
   simp only [pixel, Gen.bwPixelRenorm, Bool.false_eq_true, if_false, Gen.bwPixelApply, stAbs, stIfft2, stFft2, stMul, blurCore]
+/-- the closing statements of `jitter` / `smear` at ℝ: a blurred frame with zero total is returned as it is (the regenerated guard
+`if np.sum(out) == 0: return out`), any other is rescaled to the input total -/
+noncomputable def renormZ (img out : Arr ℝ) : Arr ℝ := if arrSum out = 0 then out else renorm img out
+theorem renormZ_ne (img out : Arr ℝ) (h : arrSum out ≠ 0) : renormZ img out = renorm img out := by simp [renormZ, h]
+theorem renormZ_zero (img out : Arr ℝ) (h : arrSum out = 0) : renormZ img out = out := by simp [renormZ, h]
+theorem renormZ_s0 (img out : Arr ℝ) : (renormZ img out).s0 = out.s0 := by unfold renormZ; split_ifs <;> rfl
+theorem renormZ_s1 (img out : Arr ℝ) : (renormZ img out).s1 = out.s1 := by unfold renormZ; split_ifs <;> rfl
+
+theorem renormGuarded_true_eq (img out : Arr ℝ) :
+    renormGuarded true (fun o s t : ℝ => (o * s) / t) img out = renormZ img out := by
+  unfold renormGuarded renormZ
+  by_cases h : arrSum out = 0
+  · simp [h, BlurLike.isZero]
+  · simp [h, BlurLike.isZero, renormWith, renorm]
+
 theorem jitter_def (img : Arr ℝ) (scale ps os : ℝ) :
-    jitter ℂ img scale ps os = renorm img (blurCore ℂ img (jitterKernel img.s0 img.s1 scale ps os)) := by
-  simp only [jitter, Gen.bwJitterRenorm, if_true, Gen.bwJitterApply, stAbs, stIfft2, stFft2, stMul, blurCore, renormWith, renorm,
-    Gen.bwJitterRenormExpr]
+    jitter ℂ img scale ps os = renormZ img (blurCore ℂ img (jitterKernel img.s0 img.s1 scale ps os)) := by
+  rw [← renormGuarded_true_eq]
+  simp only [jitter, Gen.bwJitterRenorm, if_true, Gen.bwJitterApply, stAbs, stIfft2, stFft2, stMul, blurCore,
+    Gen.bwJitterRenormGuard]
+  rfl
 theorem smear_def (img : Arr ℝ) (dist ang ps os : ℝ) :
-    smear ℂ img dist ang ps os = renorm img (blurCore ℂ img (smearKernel img.s0 img.s1 dist ang ps os)) := by
-  simp only [smear, Gen.bwSmearRenorm, if_true, Gen.bwSmearApply, stAbs, stIfft2, stFft2, stMul, blurCore, renormWith, renorm,
-    Gen.bwSmearRenormExpr]
+    smear ℂ img dist ang ps os = renormZ img (blurCore ℂ img (smearKernel img.s0 img.s1 dist ang ps os)) := by
+  rw [← renormGuarded_true_eq]
+  simp only [smear, Gen.bwSmearRenorm, if_true, Gen.bwSmearApply, stAbs, stIfft2, stFft2, stMul, blurCore,
+    Gen.bwSmearRenormGuard]
+  rfl
 
 theorem renorm_get (img out : Arr ℝ) (i j : ℤ) : (renorm img out).get i j = out.get i j * arrSum img / arrSum out := rfl
 
